@@ -96,14 +96,23 @@ def binding_doc_stream(ctx, n, off=0, collect=True):
             names = rng.sample(pool, rng.randint(2, 6))
             undocumented = set(rng.sample(names, rng.randint(0, 1)))
             text = "class A { A(); %s };" % " ".join("double %s(int x) const;" % nm for nm in names)
-            open(os.path.join(d, "index.xml"), "w").write(
-                '<doxygenindex><compound refid="classA" kind="class"><name>A</name></compound></doxygenindex>')
-            open(os.path.join(d, "classA.xml"), "w").write(
-                '<doxygen><compounddef id="classA" kind="class"><compoundname>A</compoundname><sectiondef kind="public-func">' + "".join(
+            # the XML files in the encoding their declaration names (expat reads the declaration / the BOM), with a
+            # non-ASCII character in a text that is not looked at
+            enc = rng.choice(["utf-8", "utf-8", "ISO-8859-1", "UTF-16", "windows-1252", "utf-8-sig"])
+            decl = '<?xml version="1.0" encoding="%s"?>' % {"utf-8-sig": "UTF-8"}.get(enc, enc)
+
+            def put(name, body):
+                with open(os.path.join(d, name), "wb") as fh:
+                    fh.write((decl + body).encode(enc))
+            put("index.xml", '<doxygenindex><!-- caf\u00e9 --><compound refid="classA" kind="class"><name>A</name></compound></doxygenindex>')
+            put("classA.xml",
+                '<doxygen><compounddef id="classA" kind="class"><compoundname>A</compoundname><title>Fl\u00e4che \u00d7 2</title><sectiondef kind="public-func">' + "".join(
                     '<memberdef kind="function" id="m%d"><type>double</type><name>%s</name><argsstring>(int x)</argsstring>'
                     '<param><type>int</type><declname>x</declname></param><briefdescription><para>DOCOF[%s]END</para>'
                     '</briefdescription><detaileddescription></detaileddescription></memberdef>' % (i, nm, nm)
                     for i, nm in enumerate(names) if nm not in undocumented) + '</sectiondef></compounddef></doxygen>')
+            if collect:
+                ctx.count("binding_doc_xml_encoding_" + enc)
             ctx.evaluations += 1
             if collect:
                 ctx.count("binding_doc_cases")
@@ -121,8 +130,10 @@ def binding_doc_stream(ctx, n, off=0, collect=True):
                     bad = dict(what="the binding that calls A::%s carries %s instead of the documentation of A::%s" % (
                                    nm, ("the documentation of " + ", ".join("A::" + x for x in docs)) if docs else "no documentation", nm)
                                if want else "the binding of the undocumented member A::%s carries documentation of %s" % (nm, docs),
-                               input=text, documented=[x for x in names if x not in undocumented], binding=lines[:2] or out[:200])
+                               input=text, documented=[x for x in names if x not in undocumented], binding=lines[:2] or out[:200], xml_encoding=enc)
                     break
+            if not bad:
+                bad = values_insert_case(rng, d)
             if bad:
                 first = first or dict(bad)
                 if collect:
@@ -132,6 +143,42 @@ def binding_doc_stream(ctx, n, off=0, collect=True):
         finally:
             shutil.rmtree(d, ignore_errors=True)
     return first
+
+
+def values_insert_case(rng, d):
+    """ONE documented C++ member that is bound several times: gtsam::Values::insert(size_t j, T val) is bound as insert_<name>
+    and as insert, for each value type of the interface; Doxygen documents the one C++ template.  Every binding that calls
+    the member carries its documentation."""
+    from gtwrap.pybind_wrapper import PybindWrapper
+    import streams
+    pname = rng.choice(["val", "value", "x"])
+    types = rng.sample(["double", "const gtsam::Pt&", "int", "const gtsam::Rot&"], rng.randint(1, 3))
+    text = "namespace gtsam { class Pt { Pt(); }; class Rot { Rot(); };\nclass Values { Values(); %s size_t size() const; }; }" % " ".join(
+        "void insert(size_t j, %s %s);" % (t, pname) for t in types)
+    sub = os.path.join(d, "values")
+    os.makedirs(sub, exist_ok=True)
+    open(os.path.join(sub, "index.xml"), "w").write(
+        '<doxygenindex><compound refid="classV" kind="class"><name>gtsam::Values</name></compound></doxygenindex>')
+    open(os.path.join(sub, "classV.xml"), "w").write(
+        '<doxygen><compounddef id="classV" kind="class"><compoundname>gtsam::Values</compoundname><sectiondef kind="public-func">'
+        '<memberdef kind="function" id="m1"><type>void</type><name>insert</name><argsstring>(Key j, const T &amp;%s)</argsstring>'
+        '<param><type>Key</type><declname>j</declname></param><param><type>const T &amp;</type><declname>%s</declname></param>'
+        '<briefdescription><para>DOCOF[insert]END</para></briefdescription><detaileddescription></detaileddescription></memberdef>'
+        '<memberdef kind="function" id="m2"><type>size_t</type><name>size</name><argsstring>()</argsstring>'
+        '<briefdescription><para>DOCOF[size]END</para></briefdescription><detaileddescription></detaileddescription></memberdef>'
+        '</sectiondef></compounddef></doxygen>' % (pname, pname))
+    try:
+        out = PybindWrapper(module_name="m", top_module_namespaces=[''], use_boost_serialization=False, ignore_classes=[],
+                            module_template=streams.TPL_MIN, xml_source=sub).wrap_file(text, module_name="m")
+    except Exception as ex:  # noqa
+        out = "<<%s>>" % type(ex).__name__
+    lines = [l for l in out.splitlines() if "self->insert(" in l]
+    missing = [l for l in lines if "DOCOF[insert]END" not in l]
+    if len(lines) < len(types) or missing:
+        return dict(what="a binding that calls the documented member gtsam::Values::insert carries no documentation (the member is bound %d times, "
+                    "%d bindings are documented)" % (len(lines), len(lines) - len(missing)), input=text, documented=["gtsam::Values::insert(j, %s)" % pname],
+                    binding=(missing or [out[:200]])[:2])
+    return None
 
 
 def overload_stream(ctx, n, off=0, collect=True):
